@@ -18,7 +18,7 @@ from harness.lib.core import Rng
 SQL = {"SELECT": "SELECT", "DELETE": "DELETE", "ENCRYPT": "ENCRYPT", "INSERT": "INSERT",
        "PGSTAT": "SELECT * FROM pg_stat_activity", "OTHER": "DROP TABLE users"}
 SVC_REQS = ["stop", "start", "pause", "resume", "restart", "disable", "enable", "fix", "compromise", "scan"]
-JUNK = {"notdict": "hello", "notype": {"sql": "SELECT", "connection_id": None}, "unknown": {"type": "connect_response", "response": True}}
+JUNK = {"notdict": "hello", "notype": {"sql": "SELECT", "connection_id": None}, "unknown": {"type": "ping", "sql": "SELECT"}}
 SERVER_IP, BACKUP_IP = "10.0.2.10", "10.0.3.10"
 BIG = 10 ** 7  # link bandwidth (Mbit): link saturation belongs to C18, not to this rig
 
